@@ -48,6 +48,8 @@
 #include <xalanc/PlatformSupport/DOMStringHelper.hpp>
 #include <xalanc/PlatformSupport/XalanOutputStream.hpp>
 #include <xalanc/PlatformSupport/XalanTranscodingServices.hpp>
+#include <xalanc/PlatformSupport/XalanMessageLoader.hpp>
+#include <xalanc/PlatformSupport/XalanParsedURI.hpp>
 #include <xalanc/DOMSupport/DOMSupportException.hpp>
 #include <xalanc/XalanSourceTree/XalanSourceTreeDOMSupport.hpp>
 #include <xalanc/XalanSourceTree/XalanSourceTreeParserLiaison.hpp>
@@ -284,6 +286,24 @@ static int xsltMode()
                 const std::string out = os.str();
                 reply(rc, ml, esc, followUp(T), &out);
             }
+            else if (cmd == "xu" && a.size() >= 4)
+            {
+                // stream inputs that carry a system id (the base URI against which href / document() references are resolved)
+                const std::string sty = unhex(a[0]), src = unhex(a[1]), styId = unhex(a[2]), srcId = unhex(a[3]);
+                int rc = -99;
+                std::ostringstream os;
+                std::string esc = guarded([&] {
+                    std::istringstream xs(src), ss(sty);
+                    XSLTInputSource theSource(xs), theStylesheet(ss);
+                    const XalanDOMString styIdW(styId.c_str()), srcIdW(srcId.c_str());
+                    theStylesheet.setSystemId(styIdW.c_str());
+                    theSource.setSystemId(srcIdW.c_str());
+                    rc = T.transform(theSource, theStylesheet, XSLTResultTarget(os));
+                });
+                const size_t ml = msgLen(T);
+                const std::string out = os.str();
+                reply(rc, ml, esc, followUp(T), &out);
+            }
             else if (cmd == "xr" && a.size() >= 2)
             {
                 // like xf, and the same request on a fresh transformer: a transformer that has a history must give the same answer
@@ -308,6 +328,64 @@ static int xsltMode()
                 if (!same) std::cout << " refout=" << tohex(osRef.str().substr(0, 2048)) << " refrc=" << rcRef;
                 g_lastMsg.clear();
                 std::cout << std::endl;
+            }
+            else if (cmd == "msgall" && a.size() >= 2)
+            {
+                // every message of the catalogue through every getMessage overload, each substitution text `len` characters long
+                // (a message with fewer slots than arguments simply ignores the rest)
+                const size_t len = size_t(std::atol(a[0].c_str()));
+                MemoryManager& mm = XalanMemMgrs::getDefaultXercesMemMgr();
+                XalanDOMString rep(mm);
+                for (size_t i = 0; i < len; ++i) rep.push_back(XalanDOMChar('a' + i % 26));
+                std::string narrow(len, 'n');
+                const size_t count = size_t(std::atol(a[1].c_str()));     // number of codes in XalanMessages::Codes (from the translator)
+                size_t maxLen = 0, calls = 0;
+                std::string esc = guarded([&] {
+                    for (size_t c = 0; c < count; ++c)
+                    {
+                        const XalanMessages::Codes code = XalanMessages::Codes(c);
+                        XalanDOMString r(mm);
+                        XalanMessageLoader::getMessage(r, code); if (r.length() > maxLen) maxLen = r.length(); r.clear();
+                        XalanMessageLoader::getMessage(r, code, rep); if (r.length() > maxLen) maxLen = r.length(); r.clear();
+                        XalanMessageLoader::getMessage(r, code, rep, rep); if (r.length() > maxLen) maxLen = r.length(); r.clear();
+                        XalanMessageLoader::getMessage(r, code, rep, rep, rep); if (r.length() > maxLen) maxLen = r.length(); r.clear();
+                        XalanMessageLoader::getMessage(r, code, narrow.c_str(), narrow.c_str(), narrow.c_str(), narrow.c_str()); if (r.length() > maxLen) maxLen = r.length(); r.clear();
+                        XalanMessageLoader::getMessage(r, code, rep.c_str(), rep.c_str(), rep.c_str(), rep.c_str()); if (r.length() > maxLen) maxLen = r.length(); r.clear();
+                        calls += 6;
+                    }
+                });
+                std::cout << "rc=0 msg=0 esc=" << esc << " fu=1 codes=" << count << " calls=" << calls << " maxlen=" << maxLen << std::endl;
+            }
+            else if (cmd == "uri" && a.size() >= 2)
+            {
+                // XalanParsedURI::resolve(relative, base) on exactly-sized, unterminated heap copies (so that a read past the end is seen
+                // by ASan), then on copies that are followed by ":/" and by "//" outside the stated length: a result that differs shows,
+                // without a sanitizer, that an element behind the end was read
+                const std::string rel = unhex(a[0]), base = unhex(a[1]);
+                std::string outs[3];
+                std::string esc = "none";
+                for (int pass = 0; pass < 3 && esc == "none"; ++pass)
+                {
+                    const size_t pad = pass == 0 ? 0 : 2;
+                    XalanDOMChar* const r = new XalanDOMChar[rel.size() + pad];
+                    XalanDOMChar* const b = new XalanDOMChar[base.size() + pad];
+                    for (size_t i = 0; i < rel.size(); ++i) r[i] = XalanDOMChar((unsigned char)rel[i]);
+                    for (size_t i = 0; i < base.size(); ++i) b[i] = XalanDOMChar((unsigned char)base[i]);
+                    if (pad)
+                    {
+                        r[rel.size()] = b[base.size()] = XalanDOMChar(pass == 1 ? ':' : '/');
+                        r[rel.size() + 1] = b[base.size() + 1] = XalanDOMChar('/');
+                    }
+                    std::string& o = outs[pass];
+                    esc = guarded([&] {
+                        XalanDOMString res(XalanMemMgrs::getDefaultXercesMemMgr());
+                        XalanParsedURI::resolve(r, XalanDOMString::size_type(rel.size()), b, XalanDOMString::size_type(base.size()), res);
+                        for (XalanDOMString::size_type i = 0; i < res.length(); ++i) o.push_back(char(res[i]));
+                    });
+                    delete[] r;
+                    delete[] b;
+                }
+                std::cout << "rc=0 msg=0 esc=" << esc << " fu=1 out=" << tohex(outs[0]) << " pout=" << tohex(outs[1] == outs[0] ? outs[2] : outs[1]) << std::endl;
             }
             else if (cmd == "lk" && a.size() >= 2)
             {
